@@ -149,6 +149,11 @@ func (t *ServerTransport) handleDataRequest(w http.ResponseWriter, r *http.Reque
 		r.Body.Close()
 		return
 	}
+	if t.maxHTTPBufferSize > 0 {
+		// The length of a body sent with chunked transfer encoding is not declared (ContentLength is -1).
+		// Don't read more than the limit in that case either. Reading beyond the limit fails, and the failure closes the transport below.
+		r.Body = http.MaxBytesReader(w, r.Body, t.maxHTTPBufferSize)
+	}
 
 	var (
 		packets []*parser.Packet
